@@ -56,7 +56,7 @@ func init() {
 						r = 3600
 					}
 					mk := func() *vpCfg {
-						return &vpCfg{Store: k.store, Refresh: r, EmailDomains: []string{"example.com"}, Legacy: map[string]bool{"passAccessToken": true, "setXAuthRequest": true}}
+						return &vpCfg{Store: k.store, Refresh: r, EmailDomains: []string{"example.com"}, AllowedGroups: []string{"g1"}, Legacy: map[string]bool{"passAccessToken": true, "setXAuthRequest": true}}
 					}
 					a, err := vpNewWorld(mk())
 					if err != nil {
@@ -85,6 +85,9 @@ func init() {
 					pair[0].idp.mu.Lock()
 					pair[0].idp.refreshMode = "ok"
 					pair[0].idp.mu.Unlock()
+					// both users are in the allowed group at the IdP to begin with
+					pair[0].idp.addUser("alice", vpUser{Sub: "sub-alice", Email: "alice@example.com", Groups: []string{"g1", "g2"}, Username: "alice"})
+					pair[0].idp.addUser("bob", vpUser{Sub: "sub-bob", Email: "bob@other.org", Groups: []string{"g1"}, Username: "bobby"})
 					jars := map[string]*vpJar{"b1": vpNewJar(), "b2": vpNewJar()}
 					type snap struct {
 						jar *vpJar
@@ -205,6 +208,16 @@ func init() {
 						case "rules":
 							cur = 1 - cur
 							obs["reloaded"] = true
+						case "groups":
+							u := vpS(st.Args, "user")
+							usr := pair[0].idp.user(u)
+							if vpB(st.Args, "member") {
+								usr.Groups = []string{"g1", "g2"}
+							} else {
+								usr.Groups = []string{"g2"}
+							}
+							pair[0].idp.addUser(u, usr)
+							obs["ok"] = true
 						case "idp":
 							pair[0].idp.mu.Lock()
 							if vpB(st.Args, "ok") {
